@@ -13,13 +13,14 @@ LEVEL = "model_checking"
 PID = "C18"
 
 
-def write_mc(workdir, name, kinds, maxlen):
+def write_mc(workdir, name, kinds, maxlen, captures=False):
     os.makedirs(workdir, exist_ok=True)
     mod = "MC_Persist_" + name
     with open(os.path.join(workdir, mod + ".tla"), "w") as f:
         f.write("---- MODULE %s ----\nEXTENDS Persist\nKindsDef == {%s}\n====\n" % (mod, ", ".join('"%s"' % k for k in sorted(kinds))))
     cfg = os.path.join(workdir, mod + ".cfg")
-    tlc.write_cfg(cfg, spec="Spec", constants={"Kinds": "<- KindsDef", "MaxV": 2, "MaxLen": maxlen}, invariants=["RoundTripExact", "NoForeignCache"])
+    tlc.write_cfg(cfg, spec="Spec", constants={"Kinds": "<- KindsDef", "ClosureCapturesOwner": captures, "MaxV": 2, "MaxLen": maxlen},
+                  invariants=["RoundTripExact", "NoForeignCache"])
     return os.path.join(workdir, mod + ".tla"), cfg
 
 
@@ -91,6 +92,13 @@ def zoo():
         model.mean_module.register_prior("mean_prior", P.NormalPrior(0.0, 2.0 * s), "constant")
     exact("exact_priors", lambda lik: K.ScaleKernel(K.RBFKernel()), post=with_priors)
 
+    # priors handed to the constructors (the library registers them with its own closures)
+    exact("exact_ctor_priors",
+          lambda lik: K.ScaleKernel(K.PeriodicKernel(period_length_prior=P.GammaPrior(2.0, 3.0), lengthscale_prior=P.GammaPrior(3.0, 2.0)),
+                                    outputscale_prior=P.LogNormalPrior(0.0, 1.0)) + K.RBFKernel(lengthscale_prior=P.NormalPrior(1.0, 2.0)),
+          lambda s, n: L.GaussianLikelihood(noise_prior=P.GammaPrior(1.5, 4.0)),
+          mean_fn=lambda: M.ConstantMean(constant_prior=P.NormalPrior(0.0, 1.0)))
+
     def with_constraints(model, seed):
         s = 0.02 * (seed % 7)                         # bounds differ between original and fresh construction
         model.covar_module.base_kernel.register_constraint("raw_lengthscale", Interval(0.05 + s, 4.0 + s))
@@ -144,8 +152,9 @@ def observables(m, save_mode):
     model, lik = m["model"], m["lik"]
     out = {}
     # train/eval flags of every module are state too (a restored sub-module in the other mode takes another code path)
-    out["modes"] = torch.tensor([float(mod.training) for _, mod in sorted(model.named_modules(), key=lambda kv: kv[0])]
-                                + [float(mod.training) for _, mod in sorted(lik.named_modules(), key=lambda kv: kv[0])], dtype=torch.float64)
+    # (a constraint's `_transform` is a module-level object shared by all constraints of the process: not state of this model)
+    own = lambda mod_: [float(sub.training) for nm, sub in sorted(mod_.named_modules(), key=lambda kv: kv[0]) if not nm.endswith("_transform")]
+    out["modes"] = torch.tensor(own(model) + own(lik), dtype=torch.float64)
     torch.manual_seed(4242)   # state that is drawn on first use (variational initialisation noise) is drawn identically on both sides
     was_training = model.training
     try:
@@ -191,6 +200,19 @@ def observables(m, save_mode):
         model.train(was_training)
         lik.train(was_training)
     return out
+
+
+def diverge(m, seed):
+    """the same deterministic change of every parameter (raw space), applied to whichever bundle it is given"""
+    import torch
+    g = torch.Generator().manual_seed(seed + 777)
+    mods = [m["model"]] + ([m["lik"]] if m["kind"] == "svgp" else [])
+    with torch.no_grad():
+        for mod in mods:
+            for n_, p in sorted(mod.named_parameters()):
+                p.add_(0.05 * (torch.rand(p.shape, generator=g, dtype=p.dtype) - 0.5))
+    for mod in mods:      # parameters changed outside an optimiser step: drop evaluation-mode caches the way train() does
+        mod.train()
 
 
 def to_save_point(m, point):
@@ -304,6 +326,44 @@ def _worker(item):
         if bad:
             r.update(ok=False, sig=r["sig"] + "/" + bad[0].split(":")[0].split(".")[0], detail="%s: %s" % (desc, "; ".join(bad[:4])))
         out.append(r)
+        if bad:
+            continue
+        # the restored model is a model of its own: (A) changing it leaves the original alone, (B) the same change applied to
+        # both keeps them identical (closures of priors / constraints read the parameters of the object they belong to)
+        r2 = dict(key=[fam, point, mech, "diverge"], ok=True, nontrivial=True, sig="C18/%s/%s/%s" % (fam, mech, point), case=c)
+        ok, e = core.guarded(lambda: diverge(rest, seed))
+        ok1, o1b = core.guarded(lambda: observables(m, point)) if ok else (False, e)
+        if not ok or not ok1:
+            r2.update(ok=False, sig=r2["sig"] + "/diverge-raises", detail="%s: changing the restored model's parameters / re-evaluating the original raised %s" % (desc, e if not ok else o1b))
+            out.append(r2)
+            continue
+        changed = [k for k in o1 if k in o1b and not (o1[k].shape == o1b[k].shape and torch.equal(o1[k], o1b[k]))]
+        if changed:
+            r2.update(ok=False, sig=r2["sig"] + "/original-follows-the-restored-model/" + changed[0].split(".")[0],
+                      detail="%s: after the restored model's parameters were changed, the ORIGINAL's %s changed too (shared state)" % (desc, changed[:3]))
+            out.append(r2)
+            continue
+        ok0, o2b = core.guarded(lambda: observables(rest, point))       # the restored model while the original still has the old values
+        ok, e = core.guarded(lambda: diverge(m, seed)) if ok0 else (False, o2b)
+        ok1, o1c = core.guarded(lambda: observables(m, point)) if ok else (False, e)
+        ok2, o2c = core.guarded(lambda: observables(rest, point)) if ok1 else (False, o1c)
+        if not (ok and ok1 and ok2):
+            r2.update(ok=False, sig=r2["sig"] + "/diverge-raises", detail="%s: after the same parameter change on both models an evaluation raised %s" % (desc, o2c if ok1 else o1c))
+            out.append(r2)
+            continue
+        bad2 = []
+        for k in o1c:
+            if k == "modes" or k not in o2c:
+                continue
+            for o2x, when in ((o2b, " (restored model evaluated before the original was changed)"), (o2c, "")):
+                good, why = core.close(o2x[k], o1c[k], 1e-11, 1e-12)
+                if not good:
+                    bad2.append("%s: %s%s" % (k, why, when))
+                    break
+        if bad2:
+            r2.update(ok=False, sig=r2["sig"] + "/after-the-same-change/" + bad2[0].split(":")[0].split(".")[0],
+                      detail="%s: after the same parameter change on the original and the restored model: %s" % (desc, "; ".join(bad2[:4])))
+        out.append(r2)
     return out
 
 
@@ -331,6 +391,8 @@ def inventory(fams, fam):
             kinds.add("ctor")
         else:
             kinds.add("random")
+    if any(True for _ in a["model"].named_priors()):
+        kinds.add("closure")
     keys0 = set(a["model"].state_dict())
     to_save_point(a, "eval_predicted")
     if set(a["model"].state_dict()) - keys0:
@@ -366,7 +428,13 @@ def run(ck):
         mod, cfg = write_mc(wd, "inv%d" % j, kinds, 5 if thorough else 4)
         jobs.append(((mod, cfg), dict(name=PID + "/inv%d" % j, check=False, workers=4, dump=(j == 0))))
         names.append((kinds, fl))
+    mod, cfg = write_mc(wd, "closure_captures_owner", {"param", "buffer", "cache", "closure"}, 3, captures=True)
+    jobs.append(((mod, cfg), dict(name=PID + "/closure_captures_owner", check=False, workers=2)))
     rs = tlc.run_many(jobs, parallel=4)
+    rb = rs.pop()
+    ck.add_tlc(rb, "Persist with a prior closure that captures its owner (must be rejected)")
+    if not rb.violation:
+        ck.vacuous("Persist.tla accepts a closure that captures its owner")
     predicted_fail = {}
     for (kinds, fl), r in zip(names, rs):
         ck.add_tlc(r, "Persist " + "+".join(sorted(kinds)))
@@ -394,12 +462,83 @@ def run(ck):
     items = [dict(cases=cases[i:i + 3]) for i in range(0, len(cases), 3)]
     results = core.pmap(_worker, items, chunksize=1)
     ck.absorb(results)
+    ck.absorb(closure_sweep())
     ck.section("replay", families=len(fams), cases=len(cases))
+
+
+def closure_sweep():
+    """carrier kind "closure": every class whose constructor takes *_prior arguments is built with them, deep-copied, and the COPY's
+    parameters are changed: every prior closure of the copy must then read the copy (its value differs from the original's)"""
+    import copy
+    import inspect
+    torch = core.setup_torch()
+    import gpytorch
+    from gpytorch import kernels as K, likelihoods as L, means as M, priors as P
+    need = {  # required constructor arguments
+        "ScaleKernel": lambda: dict(base_kernel=K.RBFKernel()), "IndexKernel": lambda: dict(num_tasks=2, rank=1),
+        "MultitaskKernel": lambda: dict(data_covar_module=K.RBFKernel(), num_tasks=2), "HammingIMQKernel": lambda: dict(vocab_size=3),
+        "CylindricalKernel": lambda: dict(num_angular_weights=2, radial_base_kernel=K.RBFKernel()), "ArcKernel": lambda: dict(base_kernel=K.RBFKernel()),
+        "PolynomialKernel": lambda: dict(power=2), "PolynomialKernelGrad": lambda: dict(power=2), "SpectralDeltaKernel": lambda: dict(num_dims=1, num_deltas=3),
+        "PiecewisePolynomialKernel": lambda: dict(q=1), "MultitaskGaussianLikelihood": lambda: dict(num_tasks=2),
+        "FixedNoiseGaussianLikelihood": lambda: dict(noise=torch.full((3,), 0.1, dtype=torch.float64), learn_additional_noise=True),
+        "LCMKernel": None, "AdditiveStructureKernel": None, "ProductStructureKernel": None, "GridInterpolationKernel": None, "GridKernel": None,
+        "InducingPointKernel": None, "MultiDeviceKernel": None, "NewtonGirardAdditiveKernel": None, "RFFKernel": lambda: dict(num_samples=4, num_dims=1),
+        "SpectralMixtureKernel": None, "DirichletClassificationLikelihood": None, "GaussianSymmetrizedKLKernel": None, "DistributionalInputKernel": None,
+    }
+    out, seen = [], 0
+    for holder in (K, L, M):
+        for cname in sorted(dir(holder)):
+            cls = getattr(holder, cname)
+            if not (inspect.isclass(cls) and issubclass(cls, gpytorch.Module)) or cname.startswith("_") or "keops" in cls.__module__:
+                continue
+            try:
+                sig = inspect.signature(cls.__init__)
+            except (TypeError, ValueError):
+                continue
+            pargs = [a for a in sig.parameters if a.endswith("_prior") or a == "prior"]
+            if not pargs or (cname in need and need[cname] is None):
+                continue
+            kw = need[cname]() if cname in need else {}
+            kw.update({a: P.NormalPrior(0.0, 1.0) for a in pargs})
+            ok, obj = core.guarded(lambda: cls(**kw).double())
+            if not ok:
+                continue                              # not constructible this simply: left to the family zoo
+            priors = list(obj.named_priors())
+            if not priors:
+                continue
+            seen += 1
+            r = dict(key=["closure", cname], ok=True, nontrivial=True, sig="C18/closure/%s" % cname, case=dict(closure=cname))
+            ok, cp = core.guarded(lambda: copy.deepcopy(obj))
+            if not ok:
+                r.update(ok=False, sig=r["sig"] + "/deepcopy-raises", detail="deepcopy(%s(%s)) raised %s" % (cname, ", ".join(pargs), cp))
+                out.append(r)
+                continue
+            with torch.no_grad():
+                for p_ in cp.parameters():
+                    p_.add_(0.37)
+            orig = {n_: closure(mod_).detach().clone() for n_, mod_, _, closure, _ in priors}
+            stale = []
+            for n_, mod_, _, closure, _ in cp.named_priors():
+                ok, v = core.guarded(lambda: closure(mod_).detach())
+                if not ok:
+                    stale.append("%s raises %s" % (n_, v))
+                elif n_ in orig and v.shape == orig[n_].shape and torch.equal(v, orig[n_]):
+                    stale.append(n_)
+            if stale:
+                r.update(ok=False, sig=r["sig"] + "/copy-reads-the-original", detail="deepcopy(%s(...)) then every parameter of the COPY changed: the copy's prior closures %s still "
+                         "return the original's values (the function captures a module instead of reading its argument)" % (cname, stale))
+            out.append(r)
+    if seen < 15:
+        raise core.Machinery("closure sweep built only %d classes with prior arguments" % seen)
+    return out
 
 
 def replay(rep):
     core.setup_torch()
-    res = _worker(dict(cases=[rep["case"]]))
+    if "closure" in rep["case"]:
+        res = [r for r in closure_sweep() if r["case"]["closure"] == rep["case"]["closure"]]
+    else:
+        res = _worker(dict(cases=[rep["case"]]))
     bad = [r for r in res if not r.get("ok", True) or r.get("machinery")]
     for r in bad:
         print("VIOLATION property=C18 replay=- :: %s :: %s" % (r.get("sig"), r.get("detail", r.get("machinery"))))
